@@ -278,6 +278,22 @@ fn list_text(r: &mut Rng, items: &[String]) -> String {
     s
 }
 
+/// Identifier-like literals of the library's source that are not known keys.
+fn literal_unknown_keys() -> &'static [&'static str] {
+    static L: std::sync::OnceLock<Vec<&'static str>> = std::sync::OnceLock::new();
+    L.get_or_init(|| {
+        const KNOWN: [&str; 16] = [
+            "PKGNAME", "ALL_DEPENDS", "PKG_SKIP_REASON", "PKG_FAIL_REASON", "NO_BIN_ON_FTP", "RESTRICTED", "CATEGORIES",
+            "MAINTAINER", "USE_DESTDIR", "BOOTSTRAP_PKG", "USERGROUP_PHASE", "SCAN_DEPENDS", "PBULK_WEIGHT", "MULTI_VERSION",
+            "DEPENDS", "PKG_LOCATION",
+        ];
+        crate::corpus::literal_strs(&["scanindex", "summary", "pkgpath", "depend"])
+            .into_iter()
+            .filter(|s| s.len() >= 2 && s.len() <= 24 && s.chars().all(|c| c.is_ascii_alphanumeric() || c == '_') && !KNOWN.contains(s))
+            .collect()
+    })
+}
+
 fn ignored_line(r: &mut Rng, id: &str) -> Line {
     let text = match r.below(10) {
         0 => String::new(),
@@ -295,7 +311,10 @@ fn ignored_line(r: &mut Rng, id: &str) -> Line {
             }
         }
         _ => {
-            let key = *r.pick(&UNKNOWN_KEYS);
+            // an unknown key: from the list, or (one time in four) a word of the
+            // library's own source that is not one of the fifteen known keys
+            let lits = literal_unknown_keys();
+            let key: &str = if !lits.is_empty() && r.chance(1, 4) { lits[r.below(lits.len())] } else { *r.pick(&UNKNOWN_KEYS) };
             let val = match r.below(6) {
                 0 => format!("PKGNAME={id}-9.9"),
                 1 => good_depend(r, id),
